@@ -32,20 +32,29 @@ Proof.
 Qed.
 
 (* ---------------------------------------------------------------- ReaderFunc *)
-Lemma readerfunc_decided fixed n f :
-  fn_variadic f = false -> fn_shard_named f = false ->
-  (fixed = true \/ fn_numout f = 2%nat) ->
-  decided (readerfunc_check_gen fixed n f) (readerfunc_schema_b n f).
+Lemma shard_is_int_spec R f a0 rest var outs :
+  shard_ok R f -> user_func_b f = Some (a0 :: rest, var, outs) -> shard_is_int R a0 = ty_eqb a0 tint.
+Proof.
+  intros Hs Hf. unfold shard_is_int. destruct (rep_shard_exact R) eqn:E; [reflexivity|].
+  destruct Hs as [H|H]; [congruence|]. unfold fn_shard_named in H. rewrite Hf in H.
+  apply kind_is_int_unnamed. exact H.
+Qed.
+
+Lemma readerfunc_decided R n f :
+  variadic_ok R f -> shard_ok R f -> numout_ok R f ->
+  decided (readerfunc_check_gen R n f) (readerfunc_schema_b n f).
 Proof.
   intros Hv Hs Hn. unfold readerfunc_check_gen, readerfunc_schema_b. rewrite slicefunc_of_user.
   destruct (user_func_b f) as [[[ins var] outs]|] eqn:Hf; [|reflexivity].
-  rewrite (user_func_b_variadic _ _ _ _ Hf) in Hv. destruct var; [discriminate|].
-  rewrite (user_func_b_numout _ _ _ _ Hf) in Hn.
-  unfold fn_shard_named in Hs. rewrite Hf in Hs.
+  unfold is_variadic. cbn [sf_var]. destruct var as [e|].
+  { rewrite (variadic_ok_some _ _ _ _ _ Hv Hf). simpl. crunch_none. }
+  rewrite andb_false_r.
+  unfold numout_ok in Hn. rewrite (user_func_b_numout _ _ _ _ Hf) in Hn.
   rewrite reflect_ins_none. cbn [sf_in sf_out].
   destruct ins as [|a0 [|st [|c0 cs]]]; try (simpl; crunch_none; fail).
   cbn [length Nat.ltb Nat.leb]. unfold out_at at 1. cbn [nth_error].
-  rewrite (kind_is_int_unnamed a0 Hs).
+  rewrite (shard_is_int_spec _ _ _ _ _ _ Hs Hf).
+  set (fixed := rep_numout R) in *.
   change (elems_of (c0 :: cs)) with (devectorize (c0 :: cs)).
   cbn [skipn].
   destruct outs as [|o0 [|o1 [|o2 os]]].
@@ -72,18 +81,19 @@ Qed.
 Lemma tys_eqb_length a b : tys_eqb a b = true -> length a = length b.
 Proof. intro H. apply tys_eqb_spec in H. congruence. Qed.
 
-Lemma writerfunc_decided s f :
-  fn_variadic f = false -> fn_shard_named f = false ->
-  decided (writerfunc_check s f) (writerfunc_schema_b s f).
+Lemma writerfunc_decided R s f :
+  variadic_ok R f -> shard_ok R f ->
+  decided (writerfunc_check_gen R s f) (writerfunc_schema_b s f).
 Proof.
-  intros Hv Hs. unfold writerfunc_check, writerfunc_schema_b. rewrite slicefunc_of_user.
+  intros Hv Hs. unfold writerfunc_check_gen, writerfunc_schema_b. rewrite slicefunc_of_user.
   destruct (user_func_b f) as [[[ins var] outs]|] eqn:Hf; [|reflexivity].
-  rewrite (user_func_b_variadic _ _ _ _ Hf) in Hv. destruct var; [discriminate|].
-  unfold fn_shard_named in Hs. rewrite Hf in Hs.
+  unfold is_variadic. cbn [sf_var]. destruct var as [e|].
+  { rewrite (variadic_ok_some _ _ _ _ _ Hv Hf). simpl. crunch_none. }
+  rewrite andb_false_r.
   rewrite reflect_ins_none. cbn [sf_in sf_out].
   destruct ins as [|a0 [|st [|a2 colsl]]]; try (simpl; crunch_none; fail).
   cbn [length plus Nat.eqb]. unfold out_at at 1 2. cbn [nth_error skipn].
-  rewrite (kind_is_int_unnamed a0 Hs).
+  rewrite (shard_is_int_spec _ _ _ _ _ _ Hs Hf).
   rewrite (tys_eqb_sym (map TSlice (cols s)) colsl).
   destruct (length colsl =? length (cols s))%nat eqn:El; cbn [negb].
   - destruct (ty_eqb a0 tint); cbn [negb andb]; [|crunch_none].
